@@ -957,6 +957,9 @@ static void MPSreadRows(MPSInput& mps, LPRowSetBase<Rational>& rset, NameSet& rn
          return;
       }
 
+      if((mps.field1() == nullptr) || (mps.field2() == nullptr))
+         break;
+
       if(*mps.field1() == 'N')
       {
          if(*mps.objName() == '\0')
